@@ -166,4 +166,81 @@ example : (Sign.verifyBytes Toy.prims knownMajor anyRingS (headerPacket sigHeade
 /-- the hypothesis of the three theorems is met by these inputs (`Codec` answers) -/
 example : (Codec.splitSig (sigMsg ++ [0xc4, 0x05, 0x01])).toOption.isSome = true := by decide +kernel
 
+/-! ### encryption: a genuine toy V2 message (named sender `[1]`, recipient `[3]`, payload `01 02 03`) -/
+
+def encRs : List Encrypt.Recipient := [⟨Toy.prims.boxPub [3], false⟩]
+
+/-- header packet and body (the payload packets) of the sealed message -/
+def encParts : Bytes × Bytes :=
+  match Encrypt.sealPackets Toy.prims 4 v2 (some [1]) encRs [2] (Toy.pad 32 [9]) [1, 2, 3] with
+  | .ok (_, hb, blks) => (headerPacket hb, (Encrypt.encodeBlocks v2 blks).toOption.getD [])
+  | .error _ => ([], [])
+
+def encMsg : Bytes := encParts.1 ++ encParts.2
+
+def encRing : Keyring := faithfulKeyring Toy.prims [[3]]
+
+example : (Decrypt.openBytes Toy.prims knownMajor encRing encMsg).toOption.map (fun r => (r.released, r.err)) =
+    some ([1, 2, 3], none) := by decide +kernel
+
+/-- case 2: followed by `c4 05 01`: typed tail decode error, generic tail clean end, accepted -/
+example : (Codec.splitEnc (encMsg ++ [0xc4, 0x05, 0x01])).toOption.map (fun x => (x.2.items.length, x.2.tail)) =
+    some (1, .err .decodeError) := by decide +kernel
+example : genericTailOf Codec.decEncHeader encDecB (encMsg ++ [0xc4, 0x05, 0x01]) = .eof := by decide +kernel
+example : (Decrypt.openBytes Toy.prims knownMajor encRing (encMsg ++ [0xc4, 0x05, 0x01])).toOption.map
+    (fun r => (r.released, r.err)) = some ([1, 2, 3], none) := by decide +kernel
+example : (Codec.splitEnc (encMsg ++ [0xc4, 0x05, 0x01])).toOption.map
+    (fun x => let r := refOpenEnc Toy.prims knownMajor encRing x.1 x.2.items x.2.tail
+                (genericTailOf Codec.decEncHeader encDecB (encMsg ++ [0xc4, 0x05, 0x01])); (r.released, r.err)) =
+    some ([1, 2, 3], none) := by decide +kernel
+
+/-- case 3: followed by a whole second copy of its payload packets: trailing garbage -/
+example : (Decrypt.openBytes Toy.prims knownMajor encRing (encMsg ++ encParts.2)).toOption.map
+    (fun r => (r.released, r.err)) = some ([1, 2, 3], some .trailingGarbage) := by decide +kernel
+example : (Decrypt.openBytes Toy.prims knownMajor encRing (encMsg ++ encParts.2 ++ [0xc4, 0x05, 0x01])).toOption.map
+    (fun r => (r.released, r.err)) = some ([1, 2, 3], some .trailingGarbage) := by decide +kernel
+
+/-- case 1: header, then `c4 05 01`: the typed read's decode error -/
+example : (Decrypt.openBytes Toy.prims knownMajor encRing (encParts.1 ++ [0xc4, 0x05, 0x01])).toOption.map
+    (fun r => (r.released, r.err)) = some ([], some .decodeError) := by decide +kernel
+
+/-! ### signcryption: a genuine toy message (sender `[1]`, box recipient `[4]`, payload `01 02 03`) -/
+
+def scRs : List Signcrypt.Recipient := [.box (Toy.prims.boxPub [4])]
+
+def scParts : Bytes × Bytes :=
+  match Signcrypt.sealPackets Toy.prims 4 (some [1]) scRs [2] (Toy.pad 32 [9]) [1, 2, 3] with
+  | .ok (_, hb, blks) => (headerPacket hb, Signcrypt.encodeBlocks blks)
+  | .error _ => ([], [])
+
+def scMsg : Bytes := scParts.1 ++ scParts.2
+
+def scRing : Keyring := faithfulKeyring Toy.prims [[4]]
+
+example : (Signcrypt.openBytes Toy.prims scRing none scMsg).toOption.map (fun r => (r.released, r.err)) =
+    some ([1, 2, 3], none) := by decide +kernel
+
+/-- case 2 -/
+example : (Codec.splitSigncrypt (scMsg ++ [0xc4, 0x05, 0x01])).toOption.map (fun x => (x.2.items.length, x.2.tail)) =
+    some (1, .err .decodeError) := by decide +kernel
+example : genericTailOf Codec.decEncHeader (fun _ => some Codec.decSigncryptBlock) (scMsg ++ [0xc4, 0x05, 0x01]) = .eof := by
+  decide +kernel
+example : (Signcrypt.openBytes Toy.prims scRing none (scMsg ++ [0xc4, 0x05, 0x01])).toOption.map
+    (fun r => (r.released, r.err)) = some ([1, 2, 3], none) := by decide +kernel
+example : (Codec.splitSigncrypt (scMsg ++ [0xc4, 0x05, 0x01])).toOption.map
+    (fun x => let r := refOpenSc Toy.prims scRing none x.1 x.2.items x.2.tail
+                (genericTailOf Codec.decEncHeader (fun _ => some Codec.decSigncryptBlock) (scMsg ++ [0xc4, 0x05, 0x01]));
+              (r.released, r.err)) =
+    some ([1, 2, 3], none) := by decide +kernel
+
+/-- case 3 -/
+example : (Signcrypt.openBytes Toy.prims scRing none (scMsg ++ scParts.2)).toOption.map
+    (fun r => (r.released, r.err)) = some ([1, 2, 3], some .trailingGarbage) := by decide +kernel
+example : (Signcrypt.openBytes Toy.prims scRing none (scMsg ++ scParts.2 ++ [0xc4, 0x05, 0x01])).toOption.map
+    (fun r => (r.released, r.err)) = some ([1, 2, 3], some .trailingGarbage) := by decide +kernel
+
+/-- case 1 -/
+example : (Signcrypt.openBytes Toy.prims scRing none (scParts.1 ++ [0xc4, 0x05, 0x01])).toOption.map
+    (fun r => (r.released, r.err)) = some ([], some .decodeError) := by decide +kernel
+
 end Saltpack.Props.C15
